@@ -104,8 +104,38 @@ func cmdCheck(args []string) int {
 			}
 		}
 	}
-	if len(targets) == 0 {
+	// type-level frame declarations (`immutable Cxx: ...`) for this property
+	type immTarget struct {
+		pc *PkgContracts
+		im Immutable
+	}
+	var immTargets []immTarget
+	for _, pp := range sortedPkgPaths(contracts) {
+		pc := contracts[pp]
+		for _, im := range pc.Immut {
+			if im.Prop == *prop {
+				immTargets = append(immTargets, immTarget{pc, im})
+				pkgPaths = append(pkgPaths, pp)
+				for _, rel := range im.Pkgs {
+					pkgPaths = append(pkgPaths, modulePath+"/"+rel)
+				}
+			}
+		}
+	}
+	if len(targets) == 0 && len(immTargets) == 0 {
 		return engineErr("no contract file declares property %s", *prop)
+	}
+	// de-duplicate package paths
+	{
+		seen := map[string]bool{}
+		var uniq []string
+		for _, pp := range pkgPaths {
+			if !seen[pp] {
+				seen[pp] = true
+				uniq = append(uniq, pp)
+			}
+		}
+		pkgPaths = uniq
 	}
 	prog, err := LoadProg(pkgPaths, contracts)
 	if err != nil {
@@ -195,6 +225,21 @@ func cmdCheck(args []string) int {
 	tSolve := time.Now()
 	discharge(append(append([]*Oblig{}, all...), residuals...), workdir, timeout, retry, useAll, 6)
 	coverFail := runCovers(covers, workdir, 6)
+	// type-level frame obligations are decided by the frame checker (no solver)
+	nFrameFns := map[string]int{}
+	for _, it := range immTargets {
+		fo := FrameObligations(prog, it.pc, it.im, *prop)
+		for _, o := range fo {
+			nFrameFns[o.Fn]++
+		}
+		all = append(all, fo...)
+	}
+	if len(immTargets) > 0 {
+		fnReports = append(fnReports, fnReport{Name: fmt.Sprintf("type-level frame: %d store sites in %d functions of the scanned packages", len(all)-countGen(all), len(nFrameFns)), Mode: "frame-checker", Obligations: len(all) - countGen(all)})
+		if len(all)-countGen(all) == 0 {
+			return engineErr("type-level frame generated no obligations")
+		}
+	}
 	solveS := time.Since(tSolve).Seconds()
 	if len(coverFail) > 0 {
 		return engineErr("vacuity: %s", strings.Join(coverFail, "; "))
@@ -313,6 +358,16 @@ func cmdCheck(args []string) int {
 		return 1
 	}
 	return 0
+}
+
+func countGen(obls []*Oblig) int {
+	n := 0
+	for _, o := range obls {
+		if o.gen != nil {
+			n++
+		}
+	}
+	return n
 }
 
 func sortedKnown(m map[string]*KnownFinding) []string {
